@@ -57,7 +57,7 @@ def tensor(data, requires_grad=False, dtype=None, device=None) -> 'Tensor':
     """
     Creates a Tensor from a numpy array
     """
-    data = np.array(data, dtype=default_type__)
+    data = np.array(data, dtype=default_type__ if dtype is None else dtype)
     return Tensor(data, requires_grad=requires_grad, dtype=dtype, device=device)
 
 def empty(*shape, dtype=None, requires_grad=False, name=None, device=None):
